@@ -800,7 +800,7 @@ def gen_composed(rnd, dyn=None):
     if rnd.random() < 0.3: procs.append(dict(cls='NetworkStatistics', name=None, params={}))
     return dict(procs=procs, seq=rnd.choice(['list', 'dict', 'nested']), dyn=dyn or rnd.choice(['sto', 'syn']), nodes=nodes, edges=edges,
                 maxT=rnd.choice([2.0, 4.0]), seed=rnd.random(), specials=[0.25, 0.5], pspecial=0.1,
-                oracles=['clock', 'member', 'loci', 'compose'])
+                oracles=['clock', 'member', 'loci', 'compose', 'forest'])
 
 
 SHARED_ATTRS = {'tOccupied', 'tHitting', 'hittingProcess', 'infection_time', 'vaccincated', 'vaccination_time'}
